@@ -332,6 +332,35 @@ def d3(chk, prog):
     tb4.done("a sample sitting exactly at its sex's expected X / Y levels is classified as the other sex")
 
 
+def low_coverage(chk, prog):
+    """the null-coverage rule shared by centring, fix, segmentation and the reports: which bins `drop_low_coverage` removes"""
+    fi = prog.fn(f"{CNA}.drop_low_coverage")
+    tb = Table(chk, "low-coverage", "drop_low_coverage on literal tables (every subset of: ordinary bin, log2 below the null threshold, zero depth with an ordinary log2, both, log2 exactly at the threshold) "
+               "with and without a depth column: drops exactly the bins with log2 < -15 or depth == 0, on a copy", fi.loc(), fi.qn)
+    kinds = [("ordinary", Fr(3, 10), 5), ("low log2", -17, 2), ("zero depth", -3, 0), ("low and empty", -20, 0), ("at the threshold", -15, 1)]
+    for r in range(1, len(kinds) + 1):
+        for subset in itertools.combinations(kinds, r):
+            for with_depth in (True, False):
+                W.reset()
+                rows = []
+                for i, (nm, lg, dp) in enumerate(subset):
+                    row = dict(chromosome="chr1", start=100 * i, end=100 * i + 50, gene=nm, log2=lg)
+                    if with_depth:
+                        row["depth"] = dp
+                    rows.append(row)
+                g = make_ga("CopyNumArray", rows, {"sample_id": "S"}, exact=True, labels=[7 + 3 * i for i in range(len(rows))])
+                it = Interp(prog)
+                out = tb.guard(lambda: ("v", it.run_method(g, "drop_low_coverage", [])), f"{[k[0] for k in subset]} depth column={with_depth}")
+                if out is None:
+                    continue
+                res = out[1]
+                want = [nm for nm, lg, dp in subset if not (lg < -15 or (with_depth and dp == 0))]
+                got = list(res.data.cols["gene"].v) if isinstance(res, GA) else None
+                untouched = list(g.data.cols["gene"].v) == [k[0] for k in subset]
+                tb.cell(got == want and untouched, dict(bins=[k[0] for k in subset], depth_column=with_depth, kept=got, want=want, input_untouched=untouched))
+    tb.done("drop_low_coverage does not drop exactly the null-coverage bins (log2 below -15, or zero depth)")
+
+
 def d3c_stated_sex(chk, prog):
     """the command-line glue: a stated sample sex always wins over the inferred one (shared with C01 / C02 / C20, whose commands go through it)"""
     fi = prog.fn("cnvlib.cmdutil.verify_sample_sex")
@@ -370,7 +399,12 @@ def run(chk):
     from . import C01
     C01.par_key_label(chk, prog)
     d1(chk, prog)
+    chk.clause("LOW", "which bins `skip_low` leaves out of the estimate: drop_low_coverage on literal tables")
+    low_coverage(chk, prog)
     sex_labels(chk, prog)
+    chk.clause("STATE", "the X / Y labels a table caches in its metadata are that table's own: no container shared between tables (C10 rule)")
+    from . import C10
+    C10.shared_state(chk, prog, modules=("cnvlib.cnary", "skgenome.gary"))
     d2(chk, prog)
     from . import C19
     # the estimators center_all binds: a location estimate of constant data / of a single value is that value (a chromosome covered by one bin votes its own level), C19-D5 rule
